@@ -23,7 +23,13 @@ RULE = (
     "dribble and cuts inside headers, optional gap between chunks) + optional terminal event (EOF / reset / partial "
     "frame then EOF / partial frame then reset / partial frame then silence; the partial frame announces its honest "
     "length or a lie of 64 KiB / 16 MiB / ~4 GiB and is cut at a generated offset: inside the length prefix, right "
-    "after it, or anywhere in the body) + optionally a hostile first (init) frame on accepted connections + for the "
+    "after it, or anywhere in the body) + optionally a hostile first (init) frame on accepted connections + for "
+    "distributed connections (half of them) a fully DECODABLE first frame whose connection-type string is not exactly "
+    "P / D / F ('p', 'd', 'f', '', 'X', 'PD', 'e-acute'): HEAD establishes such a connection, starts its reader and "
+    "decodes what follows with the distributed dispatcher (everything that is not 'P'), which is the pinned "
+    "expectation + for clear-port peer kinds (1 in 4) the way the connection comes about: instead of the peer "
+    "connecting to the listening port and sending PeerInit, the simulated server relays a ConnectToPeer.Response "
+    "(typ P / D / odd string) and the library connects to the scripted peer, which then sends the stream + for the "
     "server kind (about half of the server cases) a SECOND SESSION on the same ServerConnection object: session 1 ends with its "
     "terminal event (biased to an end inside a frame; without one the server closes), the object is connected again "
     "(net mode: network.connect_server() + reader start; client mode: by the reconnect watchdog with "
@@ -35,17 +41,21 @@ RULE = (
     "MessageReceivedEvents for the connection equals the decodable frames, once each, in order; afterwards the reader "
     "task is alive iff the connection is not CLOSED; no 'task died' loop error; a truncated tail closes the "
     "connection (EOF/READ_ERROR at once, TIMEOUT within the read timeout) instead of hanging; a bad first frame "
-    "closes that accepted connection only (a second connection opened afterwards still delivers). Session 2 is judged "
+    "closes that accepted connection only (a second connection opened afterwards still delivers); after a relayed "
+    "ConnectToPeer the library has connected to the peer and the server connection still delivers a probe frame. "
+    "Session 2 is judged "
     "by the same oracle (kinds prefixed 'second-session:'): the login answered by a valid Login.Response succeeds "
     "(explicit login() returns within 10 virtual seconds / the automatic re-login leaves a session), the reader runs "
     "while the connection is open, the decodable frames of stream 2 are delivered once each in order, stream 2 does "
     "not close the connection, the probe frame is delivered. Non-trivial = a hostile (undecodable) frame followed by "
     "at least one valid frame that must still be delivered (either session), or a session that ended after the length "
-    "prefix of an incomplete frame followed by a second session with at least one valid frame; distinct = distinct "
+    "prefix of an incomplete frame followed by a second session with at least one valid frame, or an odd "
+    "connection-type string in the first frame followed by at least one valid frame; distinct = distinct "
     "(kind, mode, frame-kind sequence, rejection-cause sequence, segmentation class, terminal event, tail length lie, "
-    "tail cut class, second-session way + frame kinds + causes). An enumerated part replays every terminal event x "
-    "cut position x announced length x (net explicit, client explicit, client auto) with a fixed second stream, and "
-    "the honest multi-megabyte frames. Thorough additionally runs "
+    "tail cut class, second-session way + frame kinds + causes, connection-type string, accept / relayed). An "
+    "enumerated part replays every terminal event x cut position x announced length x (net explicit, client explicit, "
+    "client auto) with a fixed second stream, every odd connection-type string x (accepted clear / obfuscated port, "
+    "relayed) x (net, client), and the honest multi-megabyte frames. Thorough additionally runs "
     "atheris (libFuzzer, coverage-guided) on decode_message_data per connection kind with the oracle 'returns a "
     "message or raises MessageDeserializationError'; findings are replayed without atheris."
 )
@@ -62,6 +72,12 @@ ASSUMPTIONS = [
     "all is not judged here (if it does not, the harness connects explicitly); a session 1 that ends in 'partial frame "
     "then silence' is always followed by an explicit reconnect (watchdog off) so that the read-timeout observations "
     "are those of session 1",
+    "odd connection-type strings: the expectation 'established and read with the distributed dispatcher' is the "
+    "behaviour of the unchanged library (Network._finalize_peer_connection: FILE iff 'F', else ESTABLISHED; "
+    "PeerConnection.deserialize_message: peer dispatcher iff 'P'), pinned by the enumerated cases; the property itself "
+    "equally accepts a clean refusal of that connection, so CLOSED reported + reader gone + nothing delivered is "
+    "accepted too (label odd-typ-refused-cleanly; does not occur on the unchanged library); the exact type 'F' (file "
+    "connection, no message framing) is not generated",
 ]
 BUDGET_S = {'quick': 150, 'thorough': 1500}
 
@@ -75,6 +91,10 @@ ENDS = [None, None, None, 'eof', 'reset', 'partial-eof', 'partial-silence', 'par
 S2_ENDS = ['partial-eof', 'partial-eof', 'partial-reset', 'eof', 'reset', None, 'partial-silence']
 S2_HOWS = ['auto', 'explicit']
 S2_LOGIN_BOUND_S = 10.0     # virtual seconds
+# connection-type strings of a perfectly decodable first frame (PeerInit on an accepted connection, ConnectToPeer
+# relayed by the server) that are not exactly 'P' / 'D' / 'F': the library establishes such a connection and reads it
+# with the distributed dispatcher (PeerConnection.deserialize_message: everything that is not 'P')
+ODD_TYPS = ['p', 'd', 'f', '', 'X', 'PD', '\u00e9']
 PARTIAL_ENDS = ('partial-eof', 'partial-silence', 'partial-reset')
 # announced length of the partial tail frame: honest (index 0) or a lie of 64 KiB+ / 16 MiB+ / almost 4 GiB followed
 # by 8 body bytes ("a length prefix that lies by a lot, then silence"): the read timeout must still end the read
@@ -148,7 +168,17 @@ def case_strategy(draw, mode=None):
         'bad_first': draw(st.integers(0, 5)) == 0 and kind != 'server',
         'init_key': draw(st.binary(min_size=4, max_size=4)).hex(),
         's2': None,
+        # connection type string of the init frame of a distributed connection: None = 'D', else an odd one
+        'ityp': None,
+        # how the peer connection comes about: the peer connects to the listening port and sends PeerInit, or the
+        # server relays a ConnectToPeer.Response and the library connects to the peer ('ctp', clear port kinds only)
+        'via': 'accept',
     }
+    if kind.startswith('peerD') and draw(st.booleans()):
+        case['ityp'] = draw(st.sampled_from(ODD_TYPS))
+    if kind in ('peerP', 'peerD') and draw(st.sampled_from([False, False, False, True])):
+        case['via'] = 'ctp'
+        case['bad_first'] = False
     if kind == 'server' and draw(st.integers(0, 2)) > 0:
         case['s2'] = draw(second_session_strategy(client))
         case['end'] = draw(st.sampled_from(S2_ENDS))
@@ -299,14 +329,15 @@ def _group(kind):
     return 'server' if kind == 'server' else ('peer' if kind.startswith('peerP') else 'distributed')
 
 
-def _fresh_connection(kind, established=True):
+def _fresh_connection(kind, established=True, typ=None):
     from aioslsk.network.connection import PeerConnection, PeerConnectionState, ServerConnection
 
     class _N:
         pass
     if kind == 'server':
         return ServerConnection('h', 1, _N())
-    c = PeerConnection('h', 1, _N(), obfuscated=False, connection_type='P' if kind.startswith('peerP') else 'D')
+    c = PeerConnection('h', 1, _N(), obfuscated=False,
+                       connection_type='P' if kind.startswith('peerP') else ('D' if typ is None else typ))
     if established:
         c.connection_state = PeerConnectionState.ESTABLISHED
     return c
@@ -388,9 +419,12 @@ def _sanitise(case):
                 how = 'explicit'
             s2 = {'how': how, 'rt': raw2.get('rt') if raw2.get('rt') in (1, 2) else 1, 'frames': frames2,
                   'seg': _sanitise_seg(raw2.get('seg')), 'gap': 1 if raw2.get('gap') else 0}
+    ityp = case.get('ityp') if (case.get('ityp') in ODD_TYPS and kind.startswith('peerD')) else None
+    via = 'ctp' if (case.get('via') == 'ctp' and kind in ('peerP', 'peerD')) else 'accept'
     return {'mode': mode, 'kind': kind, 'frames': frames, 'seg': seg, 'gap': 1 if case.get('gap') else 0,
-            'end': end, 'plen': plen, 'tcut': tcut, 'bad_first': bool(case.get('bad_first')) and kind != 'server',
-            'init_key': init_key, 's2': s2}
+            'end': end, 'plen': plen, 'tcut': tcut,
+            'bad_first': bool(case.get('bad_first')) and kind != 'server' and via == 'accept',
+            'init_key': init_key, 's2': s2, 'ityp': ityp, 'via': via}
 
 
 FUZZ_KINDS = ['server', 'peerP', 'peerD', 'init']
@@ -456,7 +490,7 @@ def _fuzz_tier(ctx):
         shutil.rmtree(tmp, ignore_errors=True)
 
 
-def _differential(frames, kind, group, res):
+def _differential(frames, kind, group, res, typ=None):
     """Per-frame differential: -> (built [(bytes, mutation)], expected [message | None], causes) or None when the
     decoder did not terminate (reported)."""
     from aioslsk.exceptions import MessageDeserializationError
@@ -466,7 +500,7 @@ def _differential(frames, kind, group, res):
     for f in frames:
         data, applied = build_frame(f, group)
         built.append((data, applied))
-        conn = _fresh_connection(kind)
+        conn = _fresh_connection(kind, typ=typ)
         try:
             with _cpu_limit(DECODE_CPU_LIMIT_S):
                 msg = conn.decode_message_data(data)
@@ -548,7 +582,8 @@ def run_case(case) -> CaseResult:
     frames_obf = kind == 'peerPobf'          # D connections are only obfuscated for the init message
 
     # ---- per-frame differential (pure part) ----------------------------------
-    diff = _differential(c['frames'], kind, group, res)
+    via, ityp = c['via'], c['ityp']
+    diff = _differential(c['frames'], kind, group, res, typ=ityp)
     if diff is None:
         return res
     built, expected, causes = diff
@@ -565,9 +600,11 @@ def run_case(case) -> CaseResult:
     stream = bytearray()
     init_frame = None
     bad_first = c['bad_first']
+    typ = None
     if kind != 'server':
-        typ = 'P' if kind.startswith('peerP') else 'D'
-        init_frame = M.PeerInit.Request('hostile', typ, 0).serialize()
+        typ = 'P' if kind.startswith('peerP') else ('D' if ityp is None else ityp)
+        if via == 'accept':
+            init_frame = M.PeerInit.Request('hostile', typ, 0).serialize()
         if bad_first:
             # the first generated frame takes the place of the init message
             init_frame = None
@@ -723,6 +760,20 @@ def run_case(case) -> CaseResult:
             ep.link.seg, ep.link.gap = seg, gap
             target = network.server_connection
             read_timeout = target.read_timeout
+        elif via == 'ctp':
+            # the server relays a ConnectToPeer request of user 'hostile': the library connects to that peer, sends
+            # PeerPierceFirewall and treats the connection as initialized; the peer then sends the stream
+            peer = world.add_peer('hostile', ip='66.6.6.6', seg=seg, gap=gap)
+            world.server.send(M.ConnectToPeer.Response(username='hostile', typ=typ, ip='66.6.6.6', port=peer.port,
+                                                       ticket=4242, privileged=False))
+            await asyncio.sleep(0.05)
+            target = None
+            read_timeout = 60.0
+            if not peer.links:
+                out['target_found'] = False
+                out['relay_missing'] = True
+                return
+            ep = peer.links[-1].ep
         else:
             port = settings.network.listening.obfuscated_port if obf_port else settings.network.listening.port
             ep = world.net.connect_in(port, peername=('66.6.6.6', 6666), seg=seg, gap=gap)
@@ -777,10 +828,10 @@ def run_case(case) -> CaseResult:
         probe_msg = None
         if kind != 'server':
             port = settings.network.listening.port
-            typ = 'P' if group == 'peer' else 'D'
+            typ2 = 'P' if group == 'peer' else 'D'
             ep2 = world.net.connect_in(port, peername=('77.7.7.7', 7777))
-            ep2.send(M.PeerInit.Request('second', typ, 0).serialize())
-            probe_msg = M.PeerPlaceInQueueReply.Request('probe', 1) if typ == 'P' else M.DistributedBranchLevel.Request(7)
+            ep2.send(M.PeerInit.Request('second', typ2, 0).serialize())
+            probe_msg = M.PeerPlaceInQueueReply.Request('probe', 1) if typ2 == 'P' else M.DistributedBranchLevel.Request(7)
             ep2.send(probe_msg.serialize(), delay=0.005)
             await asyncio.sleep(0.05)
             out['second_ok'] = any(m == probe_msg and cn.hostname == '77.7.7.7' for cn, m in delivered)
@@ -794,6 +845,13 @@ def run_case(case) -> CaseResult:
             ep.send(data)
             await asyncio.sleep(0.05 + len(data) * (gap + 1e-6) * 1.5)
             out['same_ok'] = any(m == pm and cn is target for cn, m in delivered[before:])
+        if via == 'ctp':
+            # the server connection that carried the relayed request still delivers
+            pm = M.GetUserStatus.Response('probe-srv', 1, False)
+            before = len(delivered)
+            world.server.send(pm)
+            await asyncio.sleep(0.05)
+            out['server_ok'] = any(m == pm and cn is network.server_connection for cn, m in delivered[before:])
         if s2 is not None:
             await second_session(world, client, network, target, ep, delivered, states)
         if client is not None:
@@ -806,10 +864,16 @@ def run_case(case) -> CaseResult:
     # ---- oracle -----------------------------------------------------------------
     from aioslsk.network.connection import ConnectionState as CS
     if not out.get('target_found'):
-        if kind != 'server' and not bad_first:
+        if out.get('relay_missing'):
+            res.violate('C02/relayed-connection-missing',
+                        f'no connection to the peer after ConnectToPeer.Response(typ={typ!r}) from the server')
+        elif kind != 'server' and not bad_first:
             res.violate('C02/accepted-connection-missing', 'no PeerConnection object observed for the accepted socket')
         elif bad_first:
             pass
+        for e in loop_errors:
+            res.violate(f'C02/loop-error:{e["exc_type"]}', str(e)[:300])
+            break
         return res
     exp_msgs = [m for m in expected if m is not None]
     got_msgs = out.get('delivered_stream', [])
@@ -830,11 +894,19 @@ def run_case(case) -> CaseResult:
         if legit_close:
             res.label('closed-by-handler')
             exp_msgs = got_msgs
+        # a connection whose decodable first frame carries an odd connection-type string may also be refused cleanly
+        # (CLOSED reported, reader gone, nothing delivered); the unchanged library establishes and reads it
+        if ityp is not None and st_after == CS.CLOSED and not got_msgs and out.get('close_reasons_stream') and \
+                not out.get('reader_alive_after_stream'):
+            res.label('odd-typ-refused-cleanly')
+            legit_close = True
         if not legit_close:
             _delivery_violation(res, 'C02/', got_msgs, expected, causes, built, out.get('state_after_stream'),
                                 out.get('reader_alive_after_stream'))
         if st_after != CS.CLOSED and not out.get('reader_alive_after_stream'):
-            res.violate('C02/reader-stopped-connection-open', f'state={st_after} causes={causes}')
+            res.violate('C02/reader-stopped-connection-open' + (f':odd-connection-type:{via}' if ityp is not None else ''),
+                        f'state={st_after} causes={causes}' +
+                        (f'; connection type string {ityp!r} in the decodable first frame ({via})' if ityp is not None else ''))
         if st_after == CS.CLOSED and end is None and not legit_close:
             res.violate('C02/connection-closed-by-stream', f'causes={causes} muts={[a for _, a in built]}')
         if end == 'partial-silence' and out.get('library_wrote'):
@@ -858,6 +930,8 @@ def run_case(case) -> CaseResult:
             res.violate('C02/desynchronised-after-stream', f'probe frame not delivered; causes={causes}')
         if out.get('second_ok') is False:
             res.violate('C02/other-connection-broken', '')
+        if out.get('server_ok') is False:
+            res.violate('C02/other-connection-broken:server', f'after ConnectToPeer.Response(typ={typ!r})')
     # ---- second session on the same ServerConnection object: the same oracle for its own stream -------------
     d = out.get('s2')
     s2_inside = False
@@ -910,7 +984,10 @@ def run_case(case) -> CaseResult:
             expected2[i] is None and any(m is not None for m in expected2[i + 1:]) for i in range(len(expected2)))
     # a session that ended inside a frame followed by a session whose valid frames must all be delivered
     midframe_then_valid = bool(s2_inside and any(m is not None for m in expected2))
-    res.nontrivial = bool(hostile_then_valid or midframe_then_valid or (bad_first and out.get('second_ok') is not None))
+    # a decodable init frame with a connection type that is not P / D / F followed by frames that must be delivered
+    odd_typ_then_valid = bool(ityp is not None and any(m is not None for m in expected))
+    res.nontrivial = bool(hostile_then_valid or midframe_then_valid or odd_typ_then_valid or
+                          (bad_first and out.get('second_ok') is not None))
     seg = c['seg']
     seg_class = 'none' if not seg else ('dribble' if max(seg) <= 3 else ('small' if max(seg) <= 9 else 'mixed'))
     res.key = [kind, mode, [a for _, a in built], causes, seg_class, end, c['plen'] if end in PARTIAL_ENDS else 0,
@@ -919,6 +996,8 @@ def run_case(case) -> CaseResult:
         res.key.append(cut_class)
     if s2 is not None:
         res.key.append([s2['how'], [a for _, a in built2], causes2])
+    if ityp is not None or via != 'accept':
+        res.key.append([via, ityp])
     res.label('kind:' + kind, 'mode:' + mode, 'seg:' + seg_class, 'end:' + str(end))
     if end in PARTIAL_ENDS and c['plen']:
         res.label('tail-length-lie:%d' % c['plen'])
@@ -926,6 +1005,10 @@ def run_case(case) -> CaseResult:
         res.label('tail-cut:' + cut_class)
     if bad_first:
         res.label('bad-first')
+    if kind != 'server':
+        res.label('via:' + via)
+    if ityp is not None:
+        res.label('init-typ:odd', 'init-typ:odd:' + via)
     if hostile_then_valid:
         res.label('hostile-then-valid')
     if s2 is not None:
@@ -976,9 +1059,35 @@ def _second_session_cases():
                               'frames': [fr('none', 's2-a'), fr('trunc', 's2-b'), fr('none', 's2-c')]}}
 
 
+def _odd_typ_cases():
+    """Every odd connection-type string (and plain P / D through the relayed path) x accepted on the clear / obfuscated
+    port / relayed by the server x net / client mode, followed by valid frame, undecodable frame, valid frame."""
+    dkey, pkey = 'distributed:DistributedBranchLevel:Request', 'peer:PeerPlaceInQueueReply:Request'
+
+    def fr(key, mut, n):
+        values = {'level': n} if key == dkey else {'filename': 'f%d' % n, 'place': n}
+        return {'key': key, 'values': values, 'mut': mut, 'a': 5, 'b': 1, 'okey': '01020304'}
+    for mode in ('net', 'client'):
+        for ityp in ODD_TYPS + [None]:
+            for kind, via in (('peerD', 'accept'), ('peerDobf', 'accept'), ('peerD', 'ctp')):
+                if mode == 'client' and kind == 'peerDobf':
+                    continue
+                if ityp is None and via == 'accept':
+                    continue
+                for end in (None, 'eof'):
+                    yield {'mode': mode, 'kind': kind, 'frames': [fr(dkey, 'none', 1), fr(dkey, 'unknown', 2), fr(dkey, 'none', 3)],
+                           'seg': None, 'gap': 0, 'end': end, 'plen': 0, 'tcut': None, 'bad_first': False,
+                           'init_key': '0a0b0c0d', 's2': None, 'ityp': ityp, 'via': via}
+        for end in (None, 'partial-eof'):
+            yield {'mode': mode, 'kind': 'peerP', 'frames': [fr(pkey, 'none', 1), fr(pkey, 'unknown', 2), fr(pkey, 'none', 3)],
+                   'seg': [3], 'gap': 0, 'end': end, 'plen': 0, 'tcut': None, 'bad_first': False,
+                   'init_key': '0a0b0c0d', 's2': None, 'ityp': None, 'via': 'ctp'}
+
+
 def run_shard(ctx):
     ctx.enumerate(_huge_cases())
     ctx.enumerate(_second_session_cases())
+    ctx.enumerate(_odd_typ_cases())
     n_net = 450 if ctx.tier == 'quick' else 9000
     n_client = 50 if ctx.tier == 'quick' else 1500
     ctx.explore(case_strategy(), n_net)
@@ -990,7 +1099,9 @@ def run_shard(ctx):
 MANIFEST_ENTRY = {
     'technique': 'property-based testing (Hypothesis): generated frame streams (valid + 8 hostile kinds) x TCP '
                  'segmentation x connection kind x terminal event (incl. truncated frame + EOF / reset / silence at a '
-                 'generated cut offset) x second session on the re-connected ServerConnection object, on an in-memory '
+                 'generated cut offset) x second session on the re-connected ServerConnection object x odd '
+                 'connection-type strings in a decodable first frame (accepted PeerInit / server-relayed '
+                 'ConnectToPeer), on an in-memory '
                  'TCP layer; per-frame differential + exactly-once in-order delivery + reader liveness oracle',
     'level_text': 'Generated-stream exploration of the real reader loop, accept path and decoder: every frame is '
                   'decoded in isolation (message or MessageDeserializationError, nothing else) and the delivered event '
